@@ -218,12 +218,23 @@ func main() {
 				h.FailWith("admission-"+strconv.FormatBool(got), fmt.Sprintf("remote %q (=%s) whitelist=%v lans=%v wildcard=%v: admitted=%v, property says %v", remote, tok, wl, lans, wild, got, want),
 					[]string{op, "# remote=" + remote + " whitelist=" + strings.Join(whitelist, ",") + " lans=" + strings.Join(lans, ",")})
 			}
-			if j == 0 {
+			if j < 4 {
 				// the 403 wrapper with a counting inner handler
 				inner := 0
 				hd := api.VerifAccessControlHandler(http.HandlerFunc(func(w http.ResponseWriter, r *http.Request) { inner++; w.WriteHeader(200) }), fn)
 				req := httptest.NewRequest("GET", "/v1/spaces", nil)
 				req.RemoteAddr = remote
+				// what a client says about itself in headers does not count: the remote address of the connection decides
+				switch h.Rng.Intn(4) {
+				case 0:
+					req.Header.Set("X-Forwarded-For", "127.0.0.1")
+				case 1:
+					req.Header.Set("X-Forwarded-For", "8.8.8.8, 127.0.0.1")
+					req.Header.Set("X-Real-IP", "127.0.0.1")
+				case 2:
+					req.Header.Set("Forwarded", "for=127.0.0.1;proto=http")
+					req.Header.Set("X-Forwarded-For", "::1")
+				}
 				rec := httptest.NewRecorder()
 				hd.ServeHTTP(rec, req)
 				op := fmt.Sprintf("handler %s %s %s %s", w, joinOr(wlTok), joinOr(lans), tok)
